@@ -1,7 +1,7 @@
 SPECIFICATION Spec
 CONSTANTS
   NT = 3
-  NW = 3
+  NW = 5
   Max = 2
   Min = 0
   MaxSusp = 1
